@@ -1,17 +1,20 @@
 CONSTANT Tier = "neg"
 CONSTANT NProc = 3
 CONSTANT Buggy_PickleCarriesHash = FALSE
-CONSTANT Buggy_DigestUsesProcess = TRUE
+CONSTANT Buggy_DigestUsesProcess = FALSE
 CONSTANT Buggy_SetstateByPosition = FALSE
 CONSTANT Buggy_ArgsBySetOrder = FALSE
 CONSTANT Buggy_DigestSkipsShared = FALSE
 CONSTANT Buggy_CompiledLosesVars = FALSE
-CONSTANT Buggy_OptionsCrossed = FALSE
+CONSTANT Buggy_OptionsCrossed = TRUE
 CONSTANT Buggy_VarsByName = FALSE
 INIT Init
 NEXT Next
+INVARIANT Inv_EqIsPyEq
 INVARIANT Inv_NoForeignHash
-INVARIANT Inv_UnpickledFindsLocal
+INVARIANT Inv_HashIsLocal
+INVARIANT Inv_LookupFinds
+INVARIANT Inv_CompiledComputes
 INVARIANT Inv_DigestIsStructural
 INVARIANT Inv_NothingRaised
 CHECK_DEADLOCK FALSE
